@@ -20,6 +20,7 @@ impl BigInt {
     #[verifier::external_body] pub fn mul(&self, o: &BigInt) -> (r: BigInt) ensures r.v() == self.v() * o.v() { unimplemented!() }
     #[verifier::external_body] pub fn add(&self, o: &BigInt) -> (r: BigInt) ensures r.v() == self.v() + o.v() { unimplemented!() }
     #[verifier::external_body] pub fn sub(&self, o: &BigInt) -> (r: BigInt) ensures r.v() == self.v() - o.v() { unimplemented!() }
+    #[verifier::external_body] pub fn increment(&self) -> (r: BigInt) ensures r.v() == self.v() + 1 { unimplemented!() }
     #[verifier::external_body] pub fn abs(&self) -> (r: BigInt) ensures r.v() == (if self.v() < 0 { -self.v() } else { self.v() }) { unimplemented!() }
     #[verifier::external_body] pub fn is_zero(&self) -> (r: bool) ensures r == (self.v() == 0) { unimplemented!() }
     #[verifier::external_body] pub fn is_negative(&self) -> (r: bool) ensures r == (self.v() < 0) { unimplemented!() }
